@@ -52,6 +52,10 @@ SPEC = {
         "Transaction::commit, before its write-back and before its publish phase): interleavings inside commit are explored at lock "
         "granularity for the scenarios marked lockgran (the committing thread is preempted while it really holds parking_lot locks, "
         "taken with try-lock loops that hand the baton over instead of blocking); for the other scenarios commit is one step",
+        "a worker that holds the baton for `watchdog` CPU seconds (5; 3 for the torn-walk family) without reaching a yield point or "
+        "finishing is declared `hang` for that schedule (a loop on values of its own log cannot be interleaved any further); the "
+        "explorer process is then restarted on the remaining scenarios; an explorer process exceeding its schedule-proportional budget "
+        "is killed and reported (explorer-timeout)",
         "memory ordering of parking_lot / Arc and parking_lot's fairness / queueing policy are still not exercised (sequentially consistent "
         "baton passing; a failed try-lock waits until some commit released its locks, nobody is ever queued on a lock)",
         "the per-variable stores of the publish phase and the wake-ups after it are one step (every written variable is exclusively "
@@ -68,7 +72,8 @@ SPEC = {
             "public call running its own transaction: set_beta/set_betas); families: read-modify-write, link pairs, queries vs edits, "
             "sews around one vertex, 3-D sews, 3-sew vs 1-link of the face, vertex insertion vs edits of its spare darts, set_betas vs "
             "row readers, remeshing kernels vs sews/unsews/kernels on neighbouring triangles (a kernel's retry() really blocks or "
-            "restarts under the scheduler), a kernel call that hangs by itself on a valid map (hang_scenarios, finding D15h: a blocked "
+            "restarts under the scheduler), id/orbit walks against a writer that re-routes the walked cell in one transaction (torn_walk_scenarios: torn snapshots must end in "
+            "a failed validation, never in an endless walk), a kernel call that hangs by itself on a valid map (hang_scenarios, finding D15h: a blocked "
             "transaction that answers `retry` when run alone on the initial map is a violation, one that answers `retry` only after other "
             "commits was handed an invalid argument and is counted as deadlocks_reproduced_sequentially), random blocks; every schedule "
             "with <= P preemptions "
@@ -605,6 +610,50 @@ def remesh_random(rng, count, params=None, nthreads=(2,)):
     return out
 
 
+def torn_walk_scenarios():
+    """id / orbit queries whose walk re-reads images, against a writer that re-routes the cell being walked in ONE transaction.
+    fast-stm gives no opacity: the reader's attempt may have logged an image of the old shape (every first read is a yield
+    point) and read the rest after the writer's commit; relative to what it logged the new shape is rho-shaped (a cycle that
+    does not contain the start dart).  The walks must terminate on such a torn view (the real ones keep a visited set) so
+    that the attempt reaches its doomed commit, fails validation and retries: every outcome is retry-or-serializable.  A walk
+    that only stops at the start dart or at NULL spins forever inside the closure (found by the explorer's watchdog)."""
+    out = []
+    p = {"preempt": 2, "cap": 20000, "full_cap": 20000, "watchdog": 3}
+
+    def fam(name, dim, init, writer, queries):
+        for q in queries:
+            qn = q.replace(" ", "")
+            out.append(Scenario(f"torn-{name}-{qn}", init, [[[q]], [writer]], dict(p), tags={"torn"}))
+        # the start image logged first by a plain read, two walks in the same attempt
+        q0 = queries[0]
+        d = q0.split()[-1]
+        out.append(Scenario(f"torn-{name}-beta-then-walks", init, [[[f"beta 1 {d}", q0, queries[-1]]], [writer]], dict(p), tags={"torn"}))
+
+    for dim in (2, 3):
+        sfx = "" if dim == 2 else "-3d"
+        rows = (lambda n, **kw: rows2(n, **kw)) if dim == 2 else (lambda n, **kw: rows3(n, **kw))
+        face_q = ["fid 4", "orbit f 4", "orbit fl 4"] + (["volid 4", "orbit vol 4"] if dim == 3 else [])
+        # the seed's demo: open face 4->1->2->3; the writer detaches 4 and closes 1->2->3->1
+        init = [gens.load_line(dim, 5, 0, rows(5, faces=[], open_chains=[[4, 1, 2, 3]]), [0] * 6)]
+        fam("open-chain" + sfx, dim, init, ["unlink 1 4", "link 1 3 1"], face_q)
+        # square 1->2->3->4->1; the writer cuts 4 out and closes the triangle 1->2->3->1
+        init = [gens.load_line(dim, 5, 0, rows(5, faces=[[1, 2, 3, 4]]), [0] * 6)]
+        fam("square" + sfx, dim, init, ["unlink 1 4", "unlink 1 3", "link 1 3 1"], face_q)
+        # hexagon; the writer cuts the chain 5->6 out and closes 1->2->3->4->1 (a longer cycle behind the logged image of 6)
+        init = [gens.load_line(dim, 6, 0, rows(6, faces=[[1, 2, 3, 4, 5, 6]]), [0] * 7)]
+        fam("hexagon" + sfx, dim, init, ["unlink 1 6", "unlink 1 4", "link 1 4 1"], [q.replace(" 4", " 6") for q in face_q])
+        # backward: 1 is the END of the open chain 2->3->4->1; the writer detaches it and closes 2->3->4->2 (cycle for beta0)
+        init = [gens.load_line(dim, 5, 0, rows(5, faces=[], open_chains=[[2, 3, 4, 1]]), [0] * 6)]
+        fam("backward" + sfx, dim, init, ["unlink 1 4", "link 1 4 2"], [q.replace(" 4", " 1") for q in face_q])
+    # vertex walk (2-D): darts 1, 2, 3 turn around one vertex (next = beta1 o beta2); the writer detaches 3 and closes 1 <-> 2
+    b = rows2(6, faces=[], pairs=[(1, 4), (2, 5), (3, 6)])
+    for a, c in ((4, 2), (5, 3), (6, 1)):
+        b[1][a], b[0][c] = c, a
+    init = [gens.load_line(2, 6, 0, b, [0] * 7)]
+    fam("vertex", 2, init, ["unlink 1 5", "unlink 1 6", "link 1 5 1"], ["vid 3", "orbit v 3", "orbit vl 3", "eid 3"])
+    return out
+
+
 def hang_scenarios():
     """a kernel that waits forever BY ITSELF on a valid map (finding D15h): collapse_edge on some edges of an anchored split grid
     computes NULL_VERTEX_ID as the new vertex and calls is_orbit_orientation_consistent(NULL), which reads the undefined vertex 0
@@ -679,7 +728,7 @@ def scenarios(tier, seed):
     mid = {"preempt": 3, "cap": 300000 if quick else 1000000}
     deep = {"preempt": 3 if quick else 4, "cap": 300000 if quick else 1500000}
     hand = rmw_scenarios() + link_scenarios() + query_scenarios() + fan_scenarios() + three_d_scenarios() + d4_scenarios() + d3_scenarios() \
-        + setbs_scenarios() + force_scenarios() + remesh_scenarios() + hang_scenarios()
+        + setbs_scenarios() + force_scenarios() + remesh_scenarios() + hang_scenarios() + torn_walk_scenarios()
     for s in hand:
         if s.name in DEEP:
             s.params.update(deep)
@@ -716,42 +765,81 @@ def scenarios(tier, seed):
 # running the explorer
 # ---------------------------------------------------------------------------------------------
 
-def run_sched(binary, scs, jobs=4, timeout=6000, batch=3):
+def batch_timeout(part):
+    """wall-clock budget of one hcsched process: proportional to the number of schedules it may execute (2 ms each, ten times
+    the usual cost) + the watchdog of every scenario"""
+    t = 0.0
+    for s in part:
+        p = s.params
+        n = sum(int(p.get(k, 0)) for k in ("cap", "full_cap", "random", "pct"))
+        t += 60 + 0.002 * n + 10 * int(p.get("watchdog", 5))
+    return t
+
+
+def run_sched(binary, scs, jobs=4, timeout=None, batch=3):
     """returns {scenario name: {"outcomes": [...], "summary": {...} | None, "errors": [...]}}.
-    Every hcsched process keeps (threads of the scenario + 1) cores busy: few processes, small batches pulled dynamically."""
+    Every hcsched process keeps (threads of the scenario + 1) cores busy: few processes, small batches pulled dynamically.
+    hcsched leaves with exit code 3 after its watchdog reported a `hang` outcome (a spinning worker cannot be cancelled): the
+    scenario is done (with that outcome) and the explorer is restarted on the rest of the batch.  A process that exceeds its
+    budget is killed and reported (`explorer-timeout`), never waited for."""
     import concurrent.futures as cf
     parts = [scs[i:i + batch] for i in range(0, len(scs), batch)]
+    res = {s.name: {"outcomes": [], "summary": None, "errors": []} for s in scs}
+
+    def absorb(out):
+        hung = None
+        for line in out.split("\n"):
+            if not line.strip():
+                continue
+            try:
+                j = json.loads(line)
+            except Exception:
+                continue
+            r = res.get(j.get("scenario"))
+            if r is None:
+                continue
+            if j["type"] == "outcome":
+                r["outcomes"].append(j)
+            elif j["type"] == "summary":
+                r["summary"] = j
+            elif j["type"] == "error":
+                r["errors"].append(j["what"])
+            elif j["type"] == "watchdog-exit":
+                hung = j["scenario"]
+        return hung
 
     def work(part):
-        text = "\n".join("\n".join(s.text()) for s in part) + "\n"
-        try:
-            p = subprocess.run([binary], input=text, stdout=subprocess.PIPE, stderr=subprocess.DEVNULL, text=True, timeout=timeout)
-            return p.returncode, p.stdout
-        except subprocess.TimeoutExpired as e:
-            return "timeout", (e.stdout or b"").decode(errors="replace") if isinstance(e.stdout, bytes) else (e.stdout or "")
+        todo = list(part)
+        while todo:
+            text = "\n".join("\n".join(s.text()) for s in todo) + "\n"
+            budget = timeout or batch_timeout(todo)
+            try:
+                p = subprocess.run([binary], input=text, stdout=subprocess.PIPE, stderr=subprocess.DEVNULL, text=True, timeout=budget)
+                rc, out = p.returncode, p.stdout
+            except subprocess.TimeoutExpired as e:
+                out = e.stdout or ""
+                out = out.decode(errors="replace") if isinstance(out, bytes) else out
+                absorb(out)
+                names = [s.name for s in todo if res[s.name]["summary"] is None]
+                for s in todo:
+                    if res[s.name]["summary"] is None:
+                        res[s.name]["errors"].append(f"explorer-timeout: the hcsched process did not finish within {budget:.0f} s and was killed; "
+                                                     f"unfinished scenarios of its batch: {names}")
+                return
+            hung = absorb(out)
+            if rc == 3 and hung is not None:
+                # done with a `hang` outcome; go on with the scenarios after it
+                k = [s.name for s in todo].index(hung)
+                todo = todo[k + 1:]
+                continue
+            for s in todo:
+                r = res[s.name]
+                if r["summary"] is None and not r["errors"] and not r["outcomes"]:
+                    r["errors"].append(f"hcsched stopped before finishing this scenario (exit code {rc})")
+            return
 
-    res = {s.name: {"outcomes": [], "summary": None, "errors": []} for s in scs}
     with cf.ThreadPoolExecutor(jobs) as ex:
-        for (rc, out), part in zip(ex.map(work, parts), parts):
-            for line in out.split("\n"):
-                if not line.strip():
-                    continue
-                try:
-                    j = json.loads(line)
-                except Exception:
-                    continue
-                r = res.get(j.get("scenario"))
-                if r is None:
-                    continue
-                if j["type"] == "outcome":
-                    r["outcomes"].append(j)
-                elif j["type"] == "summary":
-                    r["summary"] = j
-                elif j["type"] == "error":
-                    r["errors"].append(j["what"])
-            for s in part:
-                if res[s.name]["summary"] is None and not res[s.name]["errors"] and not res[s.name]["outcomes"]:
-                    res[s.name]["errors"].append(f"hcsched stopped before finishing this scenario (exit code {rc})")
+        list(ex.map(work, parts))
     return res
 
 
@@ -879,6 +967,11 @@ def oracle(case, li):
             STATS["hangs_alone"] = STATS.get("hangs_alone", 0) + 1
             return why
         return "deadlock: every unfinished thread waits for a lock or in a blocking retry; " + why
+    if o["status"] == "hang" and o.get("watchdog"):
+        t, k = o.get("hang_thread"), o.get("hang_unit")
+        return (f"hang: thread {t} unit {k} {o.get('hang_ops')} held the baton for {o.get('watchdog_s')} s of CPU time without reaching a "
+                f"yield point or finishing: it spins inside its closure (every read now comes from its own log), instead of failing "
+                f"validation and retrying")
     if o["status"] != "ok":
         return f"{o['status']}: the schedule ends in {o['status']}"
     if any(r in ("tx panic", "panic") for r in flat.values()):
@@ -1113,7 +1206,8 @@ def check_scenarios(binary, scs, jobs=4):
     for s in scs:
         r = res[s.name]
         for e in r["errors"]:
-            violations.append({"kind": "explorer", "what": f"hcsched failed on scenario {s.name}: {e}", "found_input": False,
+            violations.append({"kind": "explorer-timeout" if e.startswith("explorer-timeout") else "explorer",
+                               "what": f"hcsched failed on scenario {s.name}: {e}", "found_input": False,
                                "replay": {"theorem_or_correspondence": "schedule exploration of " + s.name, "scenario_lines": s.text()}})
         sm = r["summary"]
         if sm:
